@@ -1,2 +1,12 @@
-From Tramp Require Import Model.Base Model.Sys Props.C07.
-Print Assumptions C07_placeholder.
+From Tramp Require Import Model.Base Model.Fee Model.Classify Model.Node Model.Provider Model.Sys.
+From Tramp Require Import Proofs.SysBasics Proofs.EntryProofs Proofs.SysEntry Proofs.SysShape Proofs.SysTheorems Proofs.SysTimers Proofs.SysReach Props.C07.
+Check C07_same_resolution : forall c s ev,
+  resps (snd (step c s ev)) = [] \/
+  exists r, resps (snd (step c s ev)) = map (fun h => OResp (hid h) r) (held c s ev) /\ entry_ (pl (fst (step c s ev))) = None.
+Check C07_doomed_never_paid : forall c s ev,
+  reachable c s -> Doomed s ->
+  (forall cid q, In (OCall cid q) (snd (step c s ev)) -> is_attempt_start q = false) /\
+  (entry_ (pl (fst (step c s ev))) = None \/ Doomed (fst (step c s ev))).
+Print Assumptions C07_same_resolution.
+Print Assumptions C07_rejection_dooms.
+Print Assumptions C07_doomed_never_paid.
